@@ -12,7 +12,8 @@ K_TOL = 64.0
 EPS = 2.0 ** -52
 RULE = ("Round trip: n steps, dt -> -dt, n steps.  JANUS (orders 2,4,6,8,10; scale_pos/scale_vel 1e-10..1e-16 "
         "independently; N 2-6 hierarchical or comparable-mass systems; n <= 300; both signs of dt; with and without "
-        "read-only pre/post_timestep_modifications / heartbeat observers installed): the particle "
+        "read-only pre/post_timestep_modifications / heartbeat observers installed; gravity basic / compensated / "
+        "none; all particles active or N_active<N with testparticle_type 0/1; dt up to 0.1 P_min): the particle "
         "bit patterns and the integer state p_int must equal those of the initial state put on the grid.  "
         "LEAPFROG, WHFast (4 coordinate systems, default kernel, no correctors, safe_mode 0/1), SABA types without "
         "correctors, EOS with unprocessed splittings on both levels, SEI: the state must return to the initial "
@@ -32,7 +33,10 @@ JANUS_ORDERS = [2, 4, 6, 8, 10]
 SABA_PLAIN = ["1", "2", "3", "4", "10,4", "8,6,4", "10,6,4", "h8,4,4", "h8,6,4", "h10,6,4"]
 EOS_PLAIN = ["lf", "lf4", "lf6", "lf8", "lf4_2", "lf8_6_4"]
 CLASSES = ["%s/monitor:%s" % (a, b) for a in ("janus", "symmetric", "sei") for b in ("none", "pre", "post", "hb")] + \
-          ["janus/order%d" % o for o in JANUS_ORDERS] + ["janus/on_grid", "janus/off_grid_image", "janus/dt<0"] + \
+          ["janus/order%d" % o for o in JANUS_ORDERS] + ["janus/on_grid", "janus/off_grid_image", "janus/dt<0", "janus/gravity:basic", "janus/gravity:compensated",
+           "janus/gravity:none", "janus/testparticles:type0", "janus/testparticles:type1",
+           "janus/compensated+testparticles", "janus_tp/compensated+testparticles", "janus_tp/testparticles:type0",
+           "janus_tp/testparticles:type1"] + \
           ["symmetric/leapfrog", "sei/sei", "sei/gravity", "sei/OMEGAZ"] + \
           ["symmetric/whfast:%s:%d" % (c, s) for c in S.WH_COORDS for s in (0, 1)] + \
           ["symmetric/saba:%s" % t for t in SABA_PLAIN] + ["symmetric/eos:%s" % t for t in EOS_PLAIN]
@@ -72,9 +76,28 @@ janus_case = st.fixed_dictionaries({
     "kpos": st.one_of(S.floats(10.0, 16.0), st.sampled_from([16.0, 16.0, 10.0, 13.0])),
     "kvel": st.one_of(S.floats(10.0, 16.0), st.sampled_from([16.0, 16.0, 10.0, 13.0])),
     "n": st.one_of(st.integers(1, 300), st.integers(10, 60)),
-    "dt_frac": st.sampled_from([0.003, 0.01, 0.02, 0.05]),
+    "dt_frac": st.sampled_from([0.003, 0.01, 0.02, 0.05, 0.04, 0.1]),
     "backward_first": st.booleans(),
     "monitor": monitors,
+    # force routines JANUS can be combined with (it calls the selected routine once per stage; the tree routine is
+    # left out: the tree is rebuilt once per step only and its summation order depends on history)
+    "gravity": st.sampled_from(["basic", "basic", "compensated", "compensated", "none"]),
+    "n_active": st.one_of(st.none(), st.integers(1, 5)),     # None: all active; else min(n_active, N-1) active
+    "testparticle_type": st.sampled_from([0, 1]),
+})
+# focus on the force-routine lattice: several active bodies plus test particles, fine grid, longer steps
+janus_tp_case = st.fixed_dictionaries({
+    "system": S.hierarchical_system(nmin=4, nmax=6, allow_massless=True),
+    "order": st.sampled_from(JANUS_ORDERS),
+    "kpos": st.sampled_from([16.0, 16.0, 15.0]),
+    "kvel": st.sampled_from([16.0, 16.0, 15.0]),
+    "n": st.integers(40, 300),
+    "dt_frac": st.sampled_from([0.04, 0.1, 0.02]),
+    "backward_first": st.booleans(),
+    "monitor": st.just([]),
+    "gravity": st.sampled_from(["compensated", "compensated", "basic"]),
+    "n_active": st.integers(2, 3),
+    "testparticle_type": st.sampled_from([0, 1]),
 })
 XYZ = ("x", "y", "z", "vx", "vy", "vz")
 
@@ -109,6 +132,18 @@ def run_janus(c, ctx):
         grid.append(ints)
     sim = rb.new_sim({"G": sysd["G"], "particles": snapped})
     sim.integrator = "janus"
+    sim.gravity = c["gravity"]
+    ctx.cls("gravity:" + c["gravity"])
+    if c["n_active"] is not None and len(snapped) >= 2:
+        sim.N_active = min(c["n_active"], len(snapped) - 1)
+        sim.testparticle_type = c["testparticle_type"]
+        try:
+            sim.testparticle_hidewarnings = 1
+        except AttributeError:
+            pass
+        ctx.cls("testparticles:type%d" % c["testparticle_type"])
+        if c["gravity"] == "compensated":
+            ctx.cls("compensated+testparticles")
     sim.ri_janus.order = c["order"]
     sim.ri_janus.scale_pos = sp
     sim.ri_janus.scale_vel = sv
@@ -349,6 +384,8 @@ def run_sei(c, ctx):
 def subs(tier):
     return [
         Sub("janus", run_janus, strategy=janus_case, quick=1600, thorough=40000, shards_quick=8, shards_thorough=16),
+        Sub("janus_tp", run_janus, strategy=janus_tp_case, quick=480, thorough=12000, shards_quick=8,
+            shards_thorough=16),
         Sub("symmetric", run_sym, strategy=sym_case, quick=2400, thorough=60000, shards_quick=8, shards_thorough=16),
         Sub("sei", run_sei, strategy=sei_case, quick=800, thorough=16000, shards_quick=4, shards_thorough=8),
     ]
